@@ -99,7 +99,7 @@ func (t *Tagger) largestTagSemver(repo *git.Repository, major uint64) (*semver.V
 	}
 	if err := iter.ForEach(func(ref *plumbing.Reference) error {
 		var versionString string
-		tag, err := repo.TagObject(ref.Hash())
+		_, err := repo.TagObject(ref.Hash())
 		switch err {
 		case nil:
 		case plumbing.ErrObjectNotFound:
@@ -120,7 +120,9 @@ func (t *Tagger) largestTagSemver(repo *git.Repository, major uint64) (*semver.V
 				return errors.New(err)
 			}
 		} else {
-			versionString = tag.Name
+			// The version a tag stands for is the name of the ref: the name stored in
+			// an annotated tag object may differ (a ref created from another tag).
+			versionString = ref.Name().Short()
 		}
 		versionParts := strings.Split(versionString, ".")
 		if len(versionParts) < 3 {
